@@ -2,6 +2,7 @@ import PvModel.Props.C16
 import PvModel.Props.C16Rel
 import PvModel.Props.C16Keys
 import PvModel.Props.C17Enforce
+import PvModel.Props.C17Query
 #print axioms Pv.C16_ground_plus
 #print axioms Pv.C16_ground_minus
 #print axioms Pv.C16_ground_times
@@ -29,3 +30,4 @@ import PvModel.Props.C17Enforce
 #print axioms Pv.C16_labelled_answer_sound
 #print axioms Pv.C16_label_step
 #print axioms Pv.C16_enforce_answers_sound
+#print axioms Pv.C16_query_answers_sound
